@@ -20,6 +20,9 @@ def main():
     for p in props:
         pid = p["id"]
         f = os.path.join(ROOT, "checks", pid + ".py")
+        if os.path.exists(f) and not os.path.exists(os.path.join(ROOT, "coq", "Props", pid + ".v")):
+            na.append({"property_id": pid, "reason": reasons.get(pid, "correspondence harness exists but the Rocq theorems for this property are not committed yet; nothing is claimed")})
+            continue
         if not os.path.exists(f):
             na.append({"property_id": pid, "reason": reasons.get(pid, "no check built yet in this round (planned, see DESIGN.md section 5); nothing is claimed for it")})
             continue
